@@ -59,6 +59,14 @@ func addHandleGroups(p *plan.Plan, r *plan.Rng, next *int, paths, queries, encod
 	}
 	for g := 0; g < queries; g++ {
 		qt := queryTypes[r.Intn(len(queryTypes))]
+		if r.Chance(1, 3) {
+			// types whose fields are context-aware marshalers that use their sub-query
+			for _, c := range queryTypes {
+				if (c.T == "WithQ" || c.T == "WithCB") && r.Bool() {
+					qt = c
+				}
+			}
+		}
 		nq := r.Range(1, 3)
 		for qi := 0; qi < nq; qi++ {
 			text := qt.Queries[r.Intn(len(qt.Queries))]
